@@ -207,94 +207,84 @@ func (d *Desc) NameValid() bool {
 	return Resolve(d.Root, d.Path) == d.Ino
 }
 
-func split(path string) []string {
-	var r []string
+// resolved is the result of resolving a path below a directory descriptor.
+type resolved struct {
+	parent  *Inode   // directory holding the last component (nil when self)
+	name    string   // last component
+	target  *Inode   // what the path names (nil if the last component is missing)
+	errno   uint32   // failure in an intermediate component (ENOENT / ENOTDIR)
+	escape  bool     // absolute path, or ".." climbs above the directory descriptor
+	empty   bool     // "" or only slashes
+	mustDir bool     // trailing slash: the path must name a directory
+	self    bool     // the path normalises to the descriptor's directory itself (".", "a/..")
+	stack   []string // names from the descriptor's directory down to the target
+}
+
+// clean normalises a relative path lexically, exactly like path.Clean: empty and "."
+// components vanish, "name/.." pairs cancel. The reference model of the property has no
+// notion of dot components, and wazero's atPath normalises guest paths this way before any
+// lookup, so "f/." is "f" and "missing/../x" is "x" (POSIX would walk the tree and answer
+// ENOTDIR / ENOENT for those). ok is false when the path climbs above its start.
+func clean(path string) (comps []string, ok bool) {
 	for _, c := range strings.Split(path, "/") {
-		if c != "" && c != "." {
-			r = append(r, c)
+		switch c {
+		case "", ".":
+		case "..":
+			if len(comps) == 0 {
+				return nil, false
+			}
+			comps = comps[:len(comps)-1]
+		default:
+			comps = append(comps, c)
 		}
 	}
-	return r
+	return comps, true
 }
 
-// resolved is the result of POSIX path resolution below a directory descriptor.
-type resolved struct {
-	parent   *Inode   // directory holding the last component (nil when finalDot)
-	name     string   // last component
-	target   *Inode   // what the path names (nil if the last component is missing)
-	errno    uint32   // failure in an intermediate component (ENOENT / ENOTDIR)
-	escape   bool     // absolute path, or ".." climbs above the directory descriptor
-	empty    bool     // no component at all ("" or only slashes)
-	mustDir  bool     // trailing slash: the path must name a directory
-	finalDot bool     // last component is "." or "..": names a directory, not an entry
-	stack    []string // names from the descriptor's directory down to the target
-	// dotAfterNonDir: a "." or ".." component follows a component that is not an existing
-	// directory (purely lexical normalisation would hide that failure)
-	dotAfterNonDir bool
+// CleansToSelf reports whether the path normalises to the directory it is relative to.
+func CleansToSelf(path string) bool {
+	c, ok := clean(path)
+	return ok && len(c) == 0 && !strings.HasPrefix(path, "/")
 }
 
-// resolvePath resolves path component by component as POSIX does: every component but the
-// last must be an existing directory (also in front of "." and ".."), empty components are
-// ignored, a trailing slash demands a directory. WASI adds: absolute paths and paths that
-// climb above the descriptor's directory are refused.
+// resolvePath normalises the path lexically and then looks the remaining names up: every
+// name but the last must be an existing directory, a trailing slash on the original
+// spelling demands a directory. Absolute paths and paths that climb above the descriptor's
+// directory are refused.
 func resolvePath(dir *Inode, path string) (r resolved) {
 	if strings.HasPrefix(path, "/") {
 		r.escape = true
 		return
 	}
-	var comps []string
-	for _, c := range strings.Split(path, "/") {
-		if c != "" {
-			comps = append(comps, c)
-		}
-	}
-	if len(comps) == 0 {
+	if strings.Trim(path, "/") == "" {
 		r.empty = true
 		return
 	}
-	r.mustDir = strings.HasSuffix(path, "/")
-	inodes := []*Inode{dir}
-	var names []string
-	for i, c := range comps {
-		cur := inodes[len(inodes)-1]
-		last := i == len(comps)-1
-		switch c {
-		case ".":
-			if last {
-				r.finalDot, r.target = true, cur
-			}
-		case "..":
-			if len(inodes) == 1 {
-				r.escape = true
-				return
-			}
-			inodes, names = inodes[:len(inodes)-1], names[:len(names)-1]
-			if last {
-				r.finalDot, r.target = true, inodes[len(inodes)-1]
-			}
-		default:
-			nx := cur.Ents[c]
-			if last {
-				r.parent, r.name, r.target = cur, c, nx
-				names = append(names, c)
-				break
-			}
-			if nx == nil || !nx.Dir {
-				r.errno = ENOTDIR
-				if nx == nil {
-					r.errno = ENOENT
-				}
-				for _, later := range comps[i+1:] {
-					if later == "." || later == ".." {
-						r.dotAfterNonDir = true
-					}
-				}
-				return
-			}
-			inodes, names = append(inodes, nx), append(names, c)
-		}
+	comps, ok := clean(path)
+	if !ok {
+		r.escape = true
+		return
 	}
-	r.stack = names
+	r.mustDir = strings.HasSuffix(path, "/")
+	if len(comps) == 0 {
+		r.self, r.target = true, dir
+		return
+	}
+	cur := dir
+	for _, c := range comps[:len(comps)-1] {
+		nx := cur.Ents[c]
+		if nx == nil {
+			r.errno = ENOENT
+			return
+		}
+		if !nx.Dir {
+			r.errno = ENOTDIR
+			return
+		}
+		cur = nx
+	}
+	r.name = comps[len(comps)-1]
+	r.parent, r.target, r.stack = cur, cur.Ents[r.name], comps
 	return
 }
 
@@ -305,19 +295,8 @@ func escapes(path string) bool {
 	if strings.HasPrefix(path, "/") {
 		return true
 	}
-	depth := 0
-	for _, c := range strings.Split(path, "/") {
-		switch c {
-		case "", ".":
-		case "..":
-			if depth--; depth < 0 {
-				return true
-			}
-		default:
-			depth++
-		}
-	}
-	return false
+	_, ok := clean(path)
+	return !ok
 }
 
 var failEscape = Expect{Why: "absolute path or path leaving the directory descriptor"}
@@ -325,28 +304,10 @@ var failEscape = Expect{Why: "absolute path or path leaving the directory descri
 // walk is resolvePath for plain paths (seeding): parent, last name, target, errno.
 func walk(dir *Inode, path string) (parent *Inode, name string, target *Inode, errno uint32) {
 	r := resolvePath(dir, path)
-	if r.escape || r.empty || r.finalDot {
+	if r.escape || r.empty || r.self {
 		return nil, ".", dir, 0
 	}
 	return r.parent, r.name, r.target, r.errno
-}
-
-// LexicalDiffers reports whether the path belongs to the class of finding
-// C16-lexical-dot-components: an implementation that normalises the path lexically
-// (path.Clean) instead of resolving it component by component gives a different answer than
-// POSIX, because (a) a "." or ".." component follows a component that is not an existing
-// directory ("file/.", "missing/../x"), or (b) entryOp (mkdir, rmdir, unlink, rename) is
-// applied to a path whose last component is "." or ".." ("dir/.", "a/..").
-func (m *Model) LexicalDiffers(dirfd int32, path string, entryOp bool) bool {
-	d, e := m.dirOf(dirfd)
-	if e != nil {
-		return false
-	}
-	r := resolvePath(d.Ino, path)
-	if r.escape || r.empty {
-		return false
-	}
-	return r.dotAfterNonDir || (entryOp && r.finalDot)
 }
 
 // dirOf returns the descriptor's directory inode or the expectation for why a path call
@@ -706,8 +667,8 @@ func (m *Model) Mkdir(dirfd int32, path string) Expect {
 		return unspec("empty path")
 	case r.escape:
 		return fail("absolute path or path leaving the directory descriptor")
-	case r.errno == 0 && r.finalDot:
-		return fail("mkdir of a path ending in '.' or '..'")
+	case r.self:
+		return unspec("mkdir of the descriptor's own directory")
 	}
 	// a trailing slash is allowed for mkdir (POSIX)
 	parent, name, t, errno := r.parent, r.name, r.target, r.errno
@@ -744,8 +705,8 @@ func (m *Model) Rmdir(dirfd int32, path string) Expect {
 		return unspec("empty path")
 	case r.escape:
 		return fail("absolute path or path leaving the directory descriptor")
-	case r.errno == 0 && r.finalDot:
-		return fail("rmdir of a path ending in '.' or '..'")
+	case r.self:
+		return unspec("rmdir of the descriptor's own directory")
 	}
 	parent, name, t, errno := r.parent, r.name, r.target, r.errno
 	if errno != 0 {
@@ -780,8 +741,8 @@ func (m *Model) Unlink(dirfd int32, path string) Expect {
 		return unspec("empty path")
 	case r.escape:
 		return fail("absolute path or path leaving the directory descriptor")
-	case r.errno == 0 && r.finalDot:
-		return fail("unlink of a path ending in '.' or '..'")
+	case r.self:
+		return unspec("unlink of the descriptor's own directory")
 	}
 	parent, name, t, errno := r.parent, r.name, r.target, r.errno
 	if errno != 0 {
@@ -839,8 +800,8 @@ func (m *Model) Rename(oldfd int32, oldPath string, newfd int32, newPath string)
 		return unspec("empty path")
 	case ro.escape || rn.escape:
 		return fail("absolute path or path leaving the directory descriptor")
-	case (ro.errno == 0 && ro.finalDot) || (rn.errno == 0 && rn.finalDot):
-		return fail("rename of a path ending in '.' or '..'")
+	case ro.self || rn.self:
+		return unspec("rename of the descriptor's own directory")
 	}
 	op, oname, ot, e1 := ro.parent, ro.name, ro.target, ro.errno
 	np, nname, nt, e2 := rn.parent, rn.name, rn.target, rn.errno
@@ -900,13 +861,15 @@ func (m *Model) RenameSameMissing(oldfd int32, oldPath string, newfd int32, newP
 	if eo != nil || en != nil || od.Root != nd.Root {
 		return false
 	}
-	a := append(append([]string{}, od.Path...), split(oldPath)...)
-	b := append(append([]string{}, nd.Path...), split(newPath)...)
+	ca, _ := clean(oldPath)
+	cb, _ := clean(newPath)
+	a := append(append([]string{}, od.Path...), ca...)
+	b := append(append([]string{}, nd.Path...), cb...)
 	if strings.Join(a, "/") != strings.Join(b, "/") {
 		return false
 	}
 	r := resolvePath(od.Ino, oldPath)
-	return r.errno != 0 || (r.target == nil && !r.finalDot && !r.escape && !r.empty)
+	return r.errno != 0 || (r.target == nil && !r.self && !r.escape && !r.empty)
 }
 
 // Listing models what a complete fd_readdir pass must yield (without "." and ".."):
